@@ -19,13 +19,14 @@ func init() {
 				ruleErrFlowCone(c, "ERRFLOW", mutationRoots(c.P), mutationConePkgs, 300)
 			}},
 			{"EVENT-ONSUCCESS", ruleEventOnSuccess},
+			{"FAIL-BEFORE-WRITE", ruleFailBeforeWrite},
 			{"COMMIT-CALLBACKS", ruleCommitCallbacks},
 			{"ITER-CLOSE", func(c *eng.Ctx) { ruleIterClose(c, "ITER-CLOSE", mutationConePkgs, 15) }},
 			{"USE-AFTER-ERR", func(c *eng.Ctx) { ruleUseAfterErr(c, "USE-AFTER-ERR", mutationConePkgs) }},
 			{"TXN-SOURCE", ruleTxnSource},
 		},
 		Meta: eng.PropMeta{
-			Explanation: "The fault quantifier 'the k-th storage operation fails' is mapped to 'every error edge of every storage-derived call site in the mutation cone'. Decided: (TXN-SHAPE) every function that obtains its transaction from ensureContextTxn defers Discard before any other exit, returns Commit's error, never reaches Commit on a path where an earlier call's error was non-nil, and every success return is dominated by Commit (ExecRequest: Commit only on the no-errors edge); (ERRFLOW) every storage-derived error produced in the cone of the mutating entry points reaches a return or sink on every non-nil path — not dropped, not only logged, not replaced by a different (nil) variable; (EVENT-ONSUCCESS) every publication of an update event sits inside a callback registered with OnSuccess/OnSuccessAsync; (ITER-CLOSE) every iterator acquired in the cone is closed or handed over on every exit; (USE-AFTER-ERR) no co-result of a failed call is dereferenced on the failure edge; (TXN-SOURCE) inside internal/db only the tabled functions create transactions. (COMMIT-CALLBACKS) BasicTxn.Commit binds the store commit's error, selects the success callbacks on no path where that error is non-nil (and the error callbacks on no path where it is nil), returns that error on every exit, and only Commit and the matching On* registrar touch the callback lists. Error-flow refinement: a returned call that is not an error constructor (`return it.Close()`, `errors.Join(other, …)`) does not count as surfacing a tracked error.",
+			Explanation: "The fault quantifier 'the k-th storage operation fails' is mapped to 'every error edge of every storage-derived call site in the mutation cone'. Decided: (TXN-SHAPE) every function that obtains its transaction from ensureContextTxn defers Discard before any other exit, returns Commit's error, never reaches Commit on a path where an earlier call's error was non-nil, and every success return is dominated by Commit (ExecRequest: Commit only on the no-errors edge); (ERRFLOW) every storage-derived error produced in the cone of the mutating entry points reaches a return or sink on every non-nil path — not dropped, not only logged, not replaced by a different (nil) variable; (EVENT-ONSUCCESS) every publication of an update event sits inside a callback registered with OnSuccess/OnSuccessAsync; (ITER-CLOSE) every iterator acquired in the cone is closed or handed over on every exit; (USE-AFTER-ERR) no co-result of a failed call is dereferenced on the failure edge; (TXN-SOURCE) inside internal/db only the tabled functions create transactions. (COMMIT-CALLBACKS) BasicTxn.Commit binds the store commit's error, selects the success callbacks on no path where that error is non-nil (and the error callbacks on no path where it is nil), returns that error on every exit, and only Commit and the matching On* registrar touch the callback lists. Error-flow refinement: a returned call that is not an error constructor (`return it.Close()`, `errors.Join(other, …)`) does not count as surfacing a tracked error. (FAIL-BEFORE-WRITE) in collection.create the unique-index violation — a failure that depends on the user's input — is detected before the first write; on the current tree it is detected after c.save, so inside an explicit transaction a create that reported an error leaves its document and its notification behind: the recorded known finding of this rule.",
 			NotDecided:  "atomicity of the key-value store's own commit (third party); in-memory side effects surviving a rollback (collection index caches); equality of the full before/after state for every fault position",
 		},
 	})
@@ -704,4 +705,67 @@ func ruleCommitCallbacks(c *eng.Ctx) {
 func isStorageCallee(info *types.Info, call *ast.CallExpr) bool {
 	f := eng.Callee(info, call)
 	return f != nil && eng.IsStorageFunc(f)
+}
+
+// ruleFailBeforeWrite: inside an explicit transaction nothing undoes the writes of a call that fails
+// (Discard of an explicit transaction is a no-op until the user ends it, and there are no savepoints).
+// A call therefore "reports an error and leaves everything as before" only if every failure that
+// depends on the user's input is detected before the call's first write. In collection.create the
+// uniqueness of indexed values is such a failure: no call that can return the unique-index violation
+// may follow c.save (which writes the document's blocks and registers its update notification).
+func ruleFailBeforeWrite(c *eng.Ctx) {
+	const rule = "FAIL-BEFORE-WRITE"
+	fi := c.Anchor(rule, "internal/db.(*collection).create")
+	if fi == nil {
+		return
+	}
+	info := fi.Pkg.TypesInfo
+	var save *ast.CallExpr
+	for _, cs := range eng.Calls(info, fi.Decl.Body) {
+		if cs.Name == "internal/db.(*collection).save" && cs.Lit == nil {
+			save = cs.Call
+		}
+	}
+	construct := "create:unique-violation-detected-before-first-write"
+	if save == nil {
+		c.Unknown(rule, construct, fi.Decl.Pos(), "anchor-unresolved: the call that writes the document (c.save)")
+		return
+	}
+	canViolateUnique := func(call *ast.CallExpr) bool {
+		g := c.P.FuncOfObj(eng.Callee(info, call))
+		if g == nil {
+			return false
+		}
+		fn := c.P.SSAFunc(g)
+		if fn == nil {
+			return false
+		}
+		for f := range c.P.Cone(fn) {
+			if f.Name() == "NewErrCanNotIndexNonUniqueFields" {
+				return true
+			}
+		}
+		return false
+	}
+	flow := eng.NewFlow(info, fi.Decl.Body)
+	spt, _ := flow.PointOf(save)
+	var late *ast.CallExpr
+	for _, cs := range eng.Calls(info, fi.Decl.Body) {
+		if cs.Lit != nil || cs.Call == save || !strings.HasPrefix(cs.Name, "internal/db.") {
+			continue
+		}
+		if !canViolateUnique(cs.Call) {
+			continue
+		}
+		cpt, ok := flow.PointOf(cs.Call)
+		if ok && flow.Reaches(spt, cpt, nil) {
+			late = cs.Call
+		}
+	}
+	pos := save.Pos()
+	if late != nil {
+		pos = late.Pos()
+	}
+	c.Check(late == nil, rule, construct, pos, "the uniqueness of indexed values is established before the document is written",
+		"a unique-index violation is only detected after c.save has written the document and registered its update notification; in an explicit transaction nothing undoes either, so a create that reported an error leaves its document (violating the unique index) and its notification in the transaction, and both become effective when the user commits")
 }
